@@ -509,28 +509,39 @@ class Body:
             self._defs = d
         return self._defs
 
-    def origins(self, op_or_local, through_calls=True, max_nodes=4000, stop_call=None, mut_ref_args=False):
-        """Flow-insensitive backward slice. Returns a set of origin tuples:
+    def origins(self, op_or_local, through_calls=True, max_nodes=4000, stop_call=None, mut_ref_args=False, blocks=None):
+        """Flow-insensitive backward slice (field-sensitive for values destructured from a tuple /
+        struct aggregate: `_t = (a, b); x = _t.1` follows only `b`). Returns a set of origin tuples:
              ('param', i)        function parameter i (1-based local index)
              ('const', repr)     constant (val or cdef)
              ('call', bb)        result of the call in block bb
              ('field', name)     a field projection read on the way (informational)
              ('local', l)        a local with no definition (e.g. upvar/arg)
            With through_calls the slice continues through call arguments.
-           With mut_ref_args, a local whose `&mut` is passed to a call also derives from that call."""
+           With mut_ref_args, a local whose `&mut` is passed to a call also derives from that call.
+           With blocks, only definitions located in those blocks are considered."""
         out = set()
         seen = set()
         st = []
 
+        def first_field(p):
+            pr = p.get("p", [])
+            if pr and isinstance(pr[0], dict) and "f" in pr[0]:
+                return pr[0]["f"]
+            return None
+
+        def push_place(p):
+            st.append((p["l"], first_field(p)))
+            for e in p.get("p", []):
+                if isinstance(e, dict) and "f" in e and e.get("n"):
+                    out.add(("field", e["n"]))
+                if isinstance(e, dict) and "idx" in e:
+                    st.append((e["idx"], None))
+
         def push_op(op):
             p = op_place(op)
             if p is not None:
-                st.append(p["l"])
-                for e in p.get("p", []):
-                    if isinstance(e, dict) and "f" in e and e.get("n"):
-                        out.add(("field", e["n"]))
-                    if isinstance(e, dict) and "idx" in e:
-                        st.append(e["idx"])
+                push_place(p)
             else:
                 c = op_const(op)
                 if c is not None:
@@ -544,19 +555,21 @@ class Body:
                         out.add(("const", c.get("ty")))
 
         if isinstance(op_or_local, int):
-            st.append(op_or_local)
+            st.append((op_or_local, None))
         else:
             push_op(op_or_local)
         defs = self.defs()
         mutref = self._mutref_calls() if mut_ref_args else {}
         while st and len(seen) < max_nodes:
-            l = st.pop()
-            if l in seen:
+            l, fld = st.pop()
+            if (l, fld) in seen:
                 continue
-            seen.add(l)
+            seen.add((l, fld))
             if 1 <= l <= self.arg_count:
                 out.add(("param", l))
             ds = defs.get(l, [])
+            if blocks is not None:
+                ds = [d for d in ds if d[1] in blocks]
             if not ds and not (1 <= l <= self.arg_count):
                 out.add(("local", l))
             for d in ds:
@@ -570,31 +583,36 @@ class Body:
                     _, bb, j, s = d
                     if s["k"] != "assign":
                         continue
+                    lf = first_field(s["lhs"])
+                    if fld is not None and lf is not None and lf != fld:
+                        continue  # assignment to another field of this local
                     rv = s["rv"]
                     k = rv["k"]
-                    if k in ("use", "cast", "un", "repeat"):
+                    if k == "agg":
+                        single = rv["ak"] == "tuple" or (rv["ak"] == "adt" and len(self.F_enum_variants(rv)) <= 1)
+                        if fld is not None and lf is None and single and fld < len(rv["fields"]):
+                            push_op(rv["fields"][fld])
+                        else:
+                            for fop in rv["fields"]:
+                                push_op(fop)
+                    elif k in ("use", "cast", "un", "repeat", "bin"):
                         for o in rv_operands(rv):
                             push_op(o)
-                    elif k == "bin":
-                        push_op(rv["a"])
-                        push_op(rv["b"])
                     elif k in ("ref", "rawptr", "discr"):
-                        pl = rv["pl"]
-                        st.append(pl["l"])
-                        for e in pl.get("p", []):
-                            if isinstance(e, dict) and "f" in e and e.get("n"):
-                                out.add(("field", e["n"]))
-                            if isinstance(e, dict) and "idx" in e:
-                                st.append(e["idx"])
-                    elif k == "agg":
-                        for fop in rv["fields"]:
-                            push_op(fop)
+                        push_place(rv["pl"])
             for bb in mutref.get(l, ()):
                 out.add(("call", bb))
                 if through_calls:
                     for a in self.blocks[bb]["t"]["args"]:
                         push_op(a)
         return out
+
+    def F_enum_variants(self, rv):
+        """variants of the ADT built by an aggregate rvalue (1 for structs)"""
+        for e in self.F.enums:
+            if e["path"] == rv.get("adt"):
+                return e["variants"]
+        return [None]
 
     def _mutref_calls(self):
         """local -> [bb of calls that receive a &mut to it (through one temp)]"""
